@@ -61,6 +61,10 @@ func scenarios(tier string) []vlib.Scenario {
 	// redial budget (8 attempts, 1 s apart) must not govern Conn.Close or a call with a context
 	out = append(out, vlib.Scenario{Name: params{"closeoutage-rt", 0, 0}.name(), P: params{"closeoutage-rt", 0, 0}})
 	out = append(out, vlib.Scenario{Name: params{"closeoutage-rt", 0, 1}.name(), P: params{"closeoutage-rt", 0, 1}})
+	// the peer stops reading while Close flushes: the chunk write stalls; the keep-alive is slow (20 s), the stream's close
+	// timeout (3 s) governs a Close without deadline
+	out = append(out, vlib.Scenario{Name: params{"upclose-stalledwrite", 0, 0}.name(), P: params{"upclose-stalledwrite", 0, 0}})
+	out = append(out, vlib.Scenario{Name: params{"upclose-stalledwrite", 0, 1}.name(), P: params{"upclose-stalledwrite", 0, 1}})
 	// an option value the wire layer refuses by panicking (the caller recovers): later calls still work
 	out = append(out, vlib.Scenario{Name: params{"badqos", 0, 0}.name(), P: params{"badqos", 0, 0}})
 	if tier == "thorough" {
@@ -290,7 +294,11 @@ func (w *world) main() {
 			})
 		}
 	}
-	if err := w.Connect(w.script()); err != nil {
+	var copts []iscp.ConnOption
+	if w.p.API == "upclose-stalledwrite" {
+		copts = append(copts, iscp.WithConnPingInterval(20*time.Second))
+	}
+	if err := w.Connect(w.script(), copts...); err != nil {
 		return
 	}
 	bg := vcontext.Background()
@@ -298,7 +306,7 @@ func (w *world) main() {
 	defer scancel()
 	w.Phase = "setup"
 	api := w.p.API
-	needUp := api == "writeflush" || api == "upclose" || api == "writelate" || api == "writeblocked"
+	needUp := api == "writeflush" || api == "upclose" || api == "writelate" || api == "writeblocked" || api == "upclose-stalledwrite"
 	needDown := api == "read" || api == "readmeta" || api == "downclose" || api == "downclose-flood"
 	if needUp && api == "writelate" {
 		// an ack timeout is configured: an acknowledgement may arrive after its waiter has given up
@@ -373,6 +381,19 @@ func (w *world) main() {
 		})
 		w.timed("Conn.Close", callTimeout, false, func(ctx context.Context) error { return w.Conn.Close(ctx) })
 		pwg.Wait()
+		api = "connclose"
+	case "upclose-stalledwrite":
+		w.up.Write(sctx, kit.IDA, "x")
+		link := w.B.Live().Link
+		link.HoldClientWrites = true
+		w.closeTimeout = 3 * time.Second
+		if vsched.Choose("close-without-deadline", 2) == 1 {
+			w.timedBackground("Upstream.Close(background)", 2*w.closeTimeout, func(ctx context.Context) error { return w.up.U.Close(ctx) })
+		} else {
+			w.timed("Upstream.Close", callTimeout, false, func(ctx context.Context) error { return w.up.U.Close(ctx) })
+		}
+		w.timed("Conn.Close", callTimeout, false, func(ctx context.Context) error { return w.Conn.Close(ctx) })
+		link.HoldClientWrites = false
 		api = "connclose"
 	case "badqos":
 		w.timed("OpenDownstream(QoS 7)", callTimeout, false, func(ctx context.Context) (err error) {
